@@ -17,13 +17,13 @@ package ipv4
 //@   prop C12
 //@   requires socket != nil
 //@   // IPPROTO_IP = 0, IP_MULTICAST_LOOP = 34: the kernel is told 1 for "loop", 0 otherwise
-//@   assert call syscall.SetsockoptInt: arg1 == 0 && arg2 == 34 && arg3 == (loop ? 1 : 0)
+//@   assert call syscall.SetsockoptInt: arg0 == socket.fd && arg1 == 0 && arg2 == 34 && arg3 == (loop ? 1 : 0)
 
 //@ func GetMulticastLoop
 //@   prop C12
 //@   requires socket != nil
 //@   remember after call syscall.GetsockoptInt: kernelLoops = result0 != 0
-//@   assert call syscall.GetsockoptInt: arg1 == 0 && arg2 == 34
+//@   assert call syscall.GetsockoptInt: arg0 == socket.fd && arg1 == 0 && arg2 == 34
 //@   // the reported setting is the kernel's: non-zero means multicast packets are looped back
 //@   ensures [reports-kernel-state] result1 == nil ==> result0 == kernelLoops
 
@@ -31,12 +31,81 @@ package ipv4
 //@   prop C12
 //@   requires socket != nil
 //@   // IP_MULTICAST_TTL = 33
-//@   assert call syscall.SetsockoptInt: arg1 == 0 && arg2 == 33 && arg3 == int(ttl)
+//@   assert call syscall.SetsockoptInt: arg0 == socket.fd && arg1 == 0 && arg2 == 33 && arg3 == int(ttl)
 
 //@ func GetMulticastTTL
 //@   prop C12
 //@   requires socket != nil
 //@   remember after call syscall.GetsockoptInt: kernelTTL := result0
-//@   assert call syscall.GetsockoptInt: arg1 == 0 && arg2 == 33
+//@   assert call syscall.GetsockoptInt: arg0 == socket.fd && arg1 == 0 && arg2 == 33
 //@   // the kernel's value (0..255) is reported as it is
 //@   ensures [reports-kernel-state] result1 == nil && 0 <= kernelTTL && kernelTTL <= 255 ==> int(result0) == kernelTTL
+
+//@ func ext:syscall.SetsockoptByte
+//@   trusted
+//@   modifies nothing
+
+//@ func SetMulticastAll
+//@   prop C12
+//@   requires socket != nil
+//@   // IP_MULTICAST_ALL = 49 (linux): the kernel is told 1 for "all", 0 otherwise
+//@   assert call syscall.SetsockoptByte: arg0 == socket.fd && arg1 == 0 && arg2 == 49 && arg3 == (all ? 1 : 0)
+
+// --- membership requests (C12: a peer receives the groups and sources it asked for) ---
+// What the kernel does with a request is outside the code; what is decided here is that each
+// request names the right operation on the right socket and carries the request that was built.
+// IP_ADD_MEMBERSHIP = 35, IP_DROP_MEMBERSHIP = 36, IP_UNBLOCK_SOURCE = 37, IP_BLOCK_SOURCE = 38,
+// IP_ADD_SOURCE_MEMBERSHIP = 39, IP_DROP_SOURCE_MEMBERSHIP = 40; SYS_SETSOCKOPT = 54 (linux/amd64).
+
+//@ func ext:net/netip.Addr.AsSlice
+//@   trusted
+//@   modifies nothing
+//@ func ext:syscall.SetsockoptIPMreq
+//@   trusted
+//@   modifies nothing
+
+//@ func prepareDropMembership
+//@   prop C12
+//@   ensures [fresh-request] result != nil
+
+//@ func DropMembership
+//@   prop C12
+//@   requires socket != nil
+//@   remember after call prepareDropMembership: req := result
+//@   assert call syscall.SetsockoptIPMreq: arg0 == socket.fd && arg1 == 0 && arg2 == 36 && arg3 == req
+
+//@ func DropSourceMembership
+//@   prop C12
+//@   requires socket != nil
+//@   assert call syscall.Syscall6: arg0 == 54 && int(arg1) == socket.fd && arg2 == 0 && arg3 == 40 && arg5 == 12
+
+//@ func BlockSource
+//@   prop C12
+//@   requires socket != nil
+//@   assert call syscall.Syscall6: arg0 == 54 && int(arg1) == socket.fd && arg2 == 0 && arg3 == 38 && arg5 == 12
+
+//@ func UnblockSource
+//@   prop C12
+//@   requires socket != nil
+//@   assert call syscall.Syscall6: arg0 == 54 && int(arg1) == socket.fd && arg2 == 0 && arg3 == 37 && arg5 == 12
+
+// Building an add request looks the interface's addresses up (loop, type switch over net.Addr):
+// outside the contracts.
+//@ func prepareAddMembership
+//@   trusted
+//@   ensures result1 == nil ==> result0 != nil
+//@   modifies nothing
+
+//@ func AddMembership
+//@   prop C12
+//@   requires socket != nil
+//@   remember after call prepareAddMembership: req := result0
+//@   remember after call prepareAddMembership: built = result1 == nil
+//@   // no request is made when none could be built
+//@   assert call syscall.SetsockoptIPMreq: built && arg0 == socket.fd && arg1 == 0 && arg2 == 35 && arg3 == req
+
+//@ func AddSourceMembership
+//@   prop C12
+//@   requires socket != nil
+//@   remember after call prepareAddMembership: built = result1 == nil
+//@   assert call syscall.Syscall6: built && arg0 == 54 && int(arg1) == socket.fd && arg2 == 0 && arg3 == 39 && arg5 == 12
